@@ -22,7 +22,7 @@ EXPLANATION = (
     'all four castling moves; Book::pieceToProm / promToPiece are inverse (constant evaluation over all codes); (3) a failed file read '
     'zero-fills the entry before deSerialize uses it, the binary search keeps lo = -1 / hi = numEntries as exclusive bounds so only '
     'indices 0..n-1 are read, and the scan loop is bounded by numEntries; (4) the weight accumulator of getBookMove is wide enough for (widest stored weight) x (largest entry count of a file) and the random pick is defined for every total (found and fixed defect D12: Random::nextInt never returns for a modulus above 2^30).'
-    ' Added later; (6) the cumulative-weight test of getBookMove, replayed for every weight vector over {0..3} of length 1..4 and every draw, chooses entry k exactly weight(k) times. (1, extended) the legality filter is executed unconditionally. (7) the scan of the entries stored under a key ends only on a key mismatch or the end of the file: with equal keys no early exit is reachable, whatever weight or move the entry holds. (8) the castling terms of the polyglot key follow the published order (768 + 0..3: white short, white long, black short, black long).')
+    ' Added later; (6) the cumulative-weight test of getBookMove, replayed for every weight vector over {0..3} of length 1..4 and every draw, chooses entry k exactly weight(k) times. (1, extended) the legality filter is executed unconditionally. (7) the scan of the entries stored under a key ends only on a key mismatch or the end of the file: with equal keys no early exit is reachable, whatever weight or move the entry holds. (8) the castling terms of the polyglot key follow the published order (768 + 0..3: white short, white long, black short, black long). (1, revised) an entry that is not a legal move ends the probe with no move, or is removed from the candidates without the walk skipping its neighbour.')
 UNDECIDED = 'that a corrupt file never produces a legal but wrong move; selection probabilities.'
 ASSUMPTIONS = ['MoveGen::pseudoLegalMoves + removeIllegal produce exactly the legal moves (property C01)',
                'book files are smaller than 2^40 bytes (used only to bound the number of entries under one key in C18.4)']
@@ -67,7 +67,23 @@ def c1_validate(fb, rep):
                '' if t['reset_ok'] else 'the flag keeps the value of an earlier candidate: after one legal entry every later entry passes unchecked', f.sname)
         # reject side returns without producing a move
         w = f.path_avoiding((t['reject'], -1), lambda ev: ev is not None and any(ev is s[2] for s in sets), lambda ev: ev is not None and ev.get('k') == 'ret')
-        rep.ob(clause, 'K2 must-pass-through', 'getBookMove: an entry that is not a legal move ends the probe with no move', w is None, '%s:%s' % (f.file, t['line']), '', f.sname)
+        # ... or is taken out of the candidate list without the walk skipping its neighbour: an erase on the reject side, and on
+        # the way from the erase back to the loop head the index is not advanced (or is stepped back first)
+        tolerant = False
+        if w is not None:
+            erases = [(b_, i_, e_) for b_, i_, e_ in f.events() if e_.get('k') == 'call' and cname(e_).split('::')[-1] == 'erase' and 'BookEntry' in ((e_.get('recv') or {}).get('t') or '') + ((e_.get('recv') or {}).get('rc') or '')
+                      and (b_ == t['reject'] or t['reject'] in f.dominators().get(b_, set()))]
+            if erases and t['loops']:
+                h_ = t['loops'][0]
+                tolerant = True
+                for b_, i_, e_ in erases:
+                    inc = lambda ev: ev is not None and ev.get('k') == 'incdec' and ev.get('op') == '++'
+                    dec = lambda ev: ev is not None and ((ev.get('k') == 'incdec' and ev.get('op') == '--') or (ev.get('k') == 'asg' and ev.get('op') == '-='))
+                    hits_inc = f.path_avoiding((b_, i_), inc, dec) is not None
+                    if hits_inc:
+                        tolerant = False
+        rep.ob(clause, 'K2 must-pass-through', 'getBookMove: an entry that is not a legal move ends the probe with no move, or is removed from the candidates without skipping its neighbour',
+               w is None or tolerant, '%s:%s' % (f.file, t['line']), '' if w is None else ('removed on the reject side' if tolerant else 'the reject side reaches the result with the entry (or its neighbour) still a candidate'), f.sname)
         # the compared list is the legal move list; the candidate is the entry's move
         list_ok = any(n.get('k') == 'var' and n.get('id') in legal_ids for n in walk(t['list_tree']))
         cand0 = _strip(t['candidate_tree'])
